@@ -265,6 +265,77 @@ impl Listener {
     }
 }
 
+/// A target that listens but whose accept queue is kept full, so that further SYNs are dropped: a connection attempt
+/// neither succeeds nor fails until `release` is called (then every pending and later connection is accepted, read to its
+/// end and closed).
+pub struct StalledTarget {
+    pub port: u16,
+    l: Option<TcpListener>,
+    fillers: Vec<TcpStream>,
+    stop: Arc<AtomicBool>,
+    acceptor: Option<std::thread::JoinHandle<()>>,
+}
+
+impl StalledTarget {
+    pub fn new() -> StalledTarget {
+        use std::os::fd::AsRawFd;
+        let l = TcpListener::bind(SocketAddrV4::new(Ipv4Addr::LOCALHOST, 0)).expect("harness: bind stalled target");
+        let port = l.local_addr().expect("harness: local_addr").port();
+        // shrink the backlog to its minimum: one established connection fills the queue
+        unsafe {
+            libc::listen(l.as_raw_fd(), 0);
+        }
+        let mut fillers = vec![];
+        for _ in 0..3 {
+            if let Ok(f) = TcpStream::connect_timeout(&SocketAddr::V4(SocketAddrV4::new(Ipv4Addr::LOCALHOST, port)), Duration::from_millis(150)) {
+                fillers.push(f);
+            }
+        }
+        StalledTarget { port, l: Some(l), fillers, stop: Arc::new(AtomicBool::new(false)), acceptor: None }
+    }
+    /// a fresh connection attempt is still pending after 1.2 s
+    pub fn is_stalled(&self) -> bool {
+        match TcpStream::connect_timeout(&SocketAddr::V4(SocketAddrV4::new(Ipv4Addr::LOCALHOST, self.port)), Duration::from_millis(1200)) {
+            Err(e) => e.kind() == std::io::ErrorKind::TimedOut || e.kind() == std::io::ErrorKind::WouldBlock,
+            Ok(_) => false,
+        }
+    }
+    pub fn release(&mut self) {
+        self.fillers.clear();
+        let Some(l) = self.l.take() else { return };
+        l.set_nonblocking(true).ok();
+        let stop = self.stop.clone();
+        self.acceptor = Some(std::thread::spawn(move || {
+            while !stop.load(Ordering::Relaxed) {
+                match l.accept() {
+                    Ok((mut s, _)) => {
+                        std::thread::spawn(move || {
+                            s.set_nonblocking(false).ok();
+                            s.set_read_timeout(Some(Duration::from_secs(60))).ok();
+                            let mut b = [0u8; 4096];
+                            while let Ok(n) = s.read(&mut b) {
+                                if n == 0 {
+                                    break;
+                                }
+                            }
+                        });
+                    }
+                    Err(_) => std::thread::sleep(Duration::from_millis(5)),
+                }
+            }
+        }));
+    }
+}
+
+impl Drop for StalledTarget {
+    fn drop(&mut self) {
+        self.stop.store(true, Ordering::Relaxed);
+        if let Some(h) = self.acceptor.take() {
+            let _ = h.join();
+        }
+    }
+}
+
 pub fn reset(s: &TcpStream) {
     // SO_LINGER 0 => RST on close
     use std::os::fd::AsRawFd;
